@@ -3,6 +3,7 @@ SPECIFICATION Spec
 CONSTANTS
   Wnd = 3
   Variant = "orig"
+  LastSlot = "ackLevel"
   MaxSdu = 2
   SegChoices = {1, 3}
   MaxSeq = 5
